@@ -590,25 +590,39 @@ pub type _Unused = (BTreeMap<u8, u8>, Arc<u8>);
 
 fn strip_marker(d: &Dump, marker: u64) -> Dump {
     let mut d = d.clone();
-    d.nodes.remove(&marker);
-    d.eo.retain(|k, _| k.0 != marker);
-    d.ei.retain(|k, _| k.0 != marker);
-    d.eot.retain(|k, _| k.0 != marker);
-    d.eit.retain(|k, _| k.0 != marker);
-    d.ep1.retain(|k, _| k.0 != marker);
-    d.epm.retain(|k, _| k.0 != marker);
+    // the marker transaction creates nodes `marker` and `marker + 1` and a relationship between them
+    let is_m = |e: u64| e == marker || e == marker + 1;
+    d.nodes.retain(|e, _| !is_m(*e));
+    d.eo.retain(|k, _| !is_m(k.0));
+    d.ei.retain(|k, _| !is_m(k.0));
+    d.eot.retain(|k, _| !is_m(k.0));
+    d.eit.retain(|k, _| !is_m(k.0));
+    d.ep1.retain(|k, _| !is_m(k.0));
+    d.epm.retain(|k, _| !is_m(k.0));
     d.tomb_flagged.clear();
     d
 }
 
 pub fn c08(tier: Tier) -> i32 {
     let rep = Report::new("C08", tier);
-    rep.rule("every history of the crash alphabet up to the stated length; for EVERY counted I/O step k of the clean run (writes, appends, fsyncs, set_len, create, rename) the history is re-executed with a one-shot EIO injected at step k; execution stops after the operation that received the error; oracle: Err => live state unchanged, Ok (error swallowed) => live state fully updated; then a marker transaction must commit and be visible; after drop+reopen the database opens and shows the faulted operation entirely or not at all, plus the marker; non-trivial = one (history, k) pair");
-    let histories = crash_histories(tier.pick(2, 3), tier == Tier::Thorough);
+    rep.rule("every history of the crash alphabet up to the stated length; for EVERY counted I/O step k of the clean run (writes, appends, fsyncs, set_len, create, rename) the history is re-executed with a one-shot EIO injected at step k; execution stops after the operation that received the error; oracle: Err => live state unchanged, Ok (error swallowed) => live state fully updated; then, in two flows (the failed operation re-issued first / not re-issued), a marker transaction that introduces new label and relationship-type names must commit and be visible; after drop+reopen the database opens and shows the faulted operation entirely or not at all, plus the marker with its names intact; histories include a reopen right before the faulted operation; non-trivial = one (history, k) pair");
+    let mut histories = crash_histories(tier.pick(2, 3), tier == Tier::Thorough);
+    {
+        // a reopen right before the operation that receives the fault (fresh handles have fresh cursors)
+        let s = sigma_crash();
+        let wc = |i: usize, pos: usize| with_counter(&s[i], pos);
+        histories.push(vec![wc(0, 1), Op::DropOpen, wc(3, 3)]);
+        histories.push(vec![wc(0, 1), wc(2, 2), Op::CloseOpen, wc(4, 4)]);
+        histories.push(vec![wc(0, 1), Op::DropOpen, wc(1, 3)]);
+    }
     rep.set("histories", json!(histories.len()));
     let cap = tier.pick(50.0, 2400.0);
     let marker = 900u64;
-    histories.par_iter().for_each(|h| {
+    // two flows after a failed operation: "retry" re-issues it, "move_on" goes straight to the marker transaction
+    let work: Vec<(&Vec<Op>, bool)> = histories.iter().flat_map(|h| [(h, true), (h, false)]).collect();
+    work.par_iter().for_each(|(h, do_retry)| {
+        let h: &Vec<Op> = h;
+        let do_retry = *do_retry;
         if rep.elapsed() > cap {
             rep.not_exhaustive(&format!("wall cap {cap}s hit; remaining histories skipped"));
             return;
@@ -748,7 +762,11 @@ pub fn c08(tier: Tier) -> i32 {
             // a failed operation can simply be issued again (the fault was one-shot): it must now
             // succeed and take full effect, live and after reopen (catches state leaked by the failure)
             let mut retried = false;
-            if f >= 1 && !is_reopen_op && res.is_err() {
+            if !do_retry && !(f >= 1 && !is_reopen_op && res.is_err()) {
+                // the second flow only differs when there is something to retry
+                continue;
+            }
+            if do_retry && f >= 1 && !is_reopen_op && res.is_err() {
                 if let Err(e) = sut.apply(&h[f - 1], &model) {
                     report(format!("retry_of_failed_op_rejected:{}", err_class(&e)), e);
                     continue;
@@ -764,7 +782,9 @@ pub fn c08(tier: Tier) -> i32 {
             }
             // marker transaction
             let m = GraphModel::default();
-            let mk = Op::Tx(vec![Op::CreateNode { e: marker, labels: vec!["M"] }, Op::SetNodeProp { e: marker, k: "k", v: Val::I(7) }]);
+            // the marker transaction introduces NEW label and relationship type names (name-table entries that
+            // a failed operation may have leaked would shift them)
+            let mk = Op::Tx(vec![Op::CreateNode { e: marker, labels: vec!["M"] }, Op::SetNodeProp { e: marker, k: "k", v: Val::I(7) }, Op::CreateNode { e: marker + 1, labels: vec!["Mtwo"] }, Op::CreateEdge { s: marker, t: "MQ", d: marker + 1 }]);
             if let Err(e) = sut.apply(&mk, &m) {
                 report(format!("later_tx_rejected:{}", err_class(&e)), e);
                 continue;
@@ -785,6 +805,11 @@ pub fn c08(tier: Tier) -> i32 {
             }
             if d.nodes.get(&marker).and_then(|n| n.p1.get("k")).map(|s| s.as_str()) != Some("Int(7)") {
                 report("later_tx_lost_after_reopen".into(), format!("{:?}", d.nodes.get(&marker)));
+                continue;
+            }
+            let names_ok = d.nodes.get(&marker).is_some_and(|n| n.labels.iter().map(|l| l.as_str()).eq(["M"])) && d.nodes.get(&(marker + 1)).is_some_and(|n| n.labels.iter().map(|l| l.as_str()).eq(["Mtwo"])) && d.eo.get(&(marker, "MQ".to_string(), marker + 1)) == Some(&1);
+            if !names_ok {
+                report("later_tx_names_changed_after_reopen".into(), format!("marker nodes after reopen: {:?} / {:?}; outgoing relationships {:?}", d.nodes.get(&marker).map(|n| &n.labels), d.nodes.get(&(marker + 1)).map(|n| &n.labels), d.eo.iter().filter(|(k, _)| k.0 == marker).collect::<Vec<_>>()));
                 continue;
             }
             let stripped = strip_marker(&d, marker);
